@@ -13,6 +13,16 @@ from .c01 import each, _single_return
 from .c05 import loop_guard
 
 FLOOR = 22
+ANCHORS = [
+    'field_rotator.FieldRotator.__init__',
+    'field_rotator.FieldRotator.field',
+    'field_rotator.FieldRotator.rotate',
+    'field_rotator.FieldRotator.clear_rotation',
+    'field_rotator.FieldRotator._map_and_interpolate',
+    'field_rotator.FieldRotator._create_interpolation_funcs',
+    'field_rotator.FieldRotator._calculate_new_region',
+    'field_rotator.FieldRotator._calculate_new_n',
+]   # functions whose code the property is anchored in (mutation analysis, evidence)
 ROT = "field_rotator.FieldRotator"
 PT = {"field": FIELD, "new_mesh": MESH, "new_region": REGION}
 
